@@ -105,3 +105,66 @@ func c05Pointers(e *c05Env) {
 		})
 	})
 }
+
+// mixed dynamic types: only the interface{} family can hold them; element equality is Go's == on interface values
+// (1, int64(1), 1.0 and "1" are four different elements). Oracle: a direct model over == .
+func c05MixedTypes(e *c05Env) {
+	univ := []interface{}{1, 2, "a", int64(1), nil, 1.0, "1", true}
+	idx := func(v interface{}) int {
+		for i, u := range univ {
+			if u == v {
+				return i
+			}
+		}
+		return -1
+	}
+	ids := func(l []interface{}) []int {
+		out := make([]int, 0, len(l))
+		for _, v := range l {
+			out = append(out, idx(v))
+		}
+		return out
+	}
+	lists := allLists([]int{0, 1, 2, 3, 4}, 3)
+	lists = append(lists, []int{0, 1, 2, 1}, []int{0, 1, 2, 0, 3, 0}, []int{5, 6, 7, 5, 0, 3, 0}, []int{2, 0, 2, 0, 1, 1}, []int{0, 0, 2, 3, 3, 0, 2})
+	n := len(lists)
+	parallelFor(n, func(w, li int) {
+		a := lists[li]
+		ia := make([]interface{}, len(a))
+		for i, x := range a {
+			ia[i] = univ[x]
+		}
+		e.law("mixed-dynamic-types:Distinct", []any{a}, len(a) > 0, func() string {
+			want := fpgo.Distinct(a...)
+			if got := ids(fpgo.DistinctForInterface(ia...)); !eqSeq(got, want) {
+				return fmt.Sprintf("DistinctForInterface of element ids %v (elements 1, 2, \"a\", int64(1), nil, 1.0, \"1\", true) gives ids %v, want %v", a, got, want)
+			}
+			if got := ids(fpgo.StreamForInterface.FromArray(append([]interface{}(nil), ia...)).Distinct().ToArray()); !eqSeq(got, want) {
+				return fmt.Sprintf("StreamForInterface.Distinct of element ids %v gives ids %v, want %v", a, got, want)
+			}
+			return ""
+		})
+		for lj := li % 7; lj < n; lj += 7 {
+			b := lists[lj]
+			ib := make([]interface{}, len(b))
+			for i, x := range b {
+				ib[i] = univ[x]
+			}
+			e.law("mixed-dynamic-types:binary", []any{a, b}, len(a) > 0 && len(b) > 0, func() string {
+				if got, want := ids(fpgo.IntersectionForInterface(ia, ib)), fpgo.Intersection(a, b); !eqMultiset(got, want) {
+					return fmt.Sprintf("IntersectionForInterface(ids %v, ids %v) gives ids %v, want %v", a, b, got, want)
+				}
+				if got, want := ids(fpgo.MinusForInterface(ia, ib)), fpgo.Minus(a, b); !eqMultiset(got, want) {
+					return fmt.Sprintf("MinusForInterface(ids %v, ids %v) gives ids %v, want %v", a, b, got, want)
+				}
+				if got, want := fpgo.IsSubsetForInterface(ia, ib), fpgo.IsSubset(a, b); got != want {
+					return fmt.Sprintf("IsSubsetForInterface(ids %v, ids %v) = %v, want %v", a, b, got, want)
+				}
+				if got, want := ids(fpgo.StreamForInterface.FromArray(append([]interface{}(nil), ia...)).Extend(fpgo.StreamForInterface.FromArray(append([]interface{}(nil), ib...))).Distinct().ToArray()), fpgo.Distinct(append(append([]int(nil), a...), b...)...); !eqSeq(got, want) {
+					return fmt.Sprintf("StreamForInterface a.Extend(b).Distinct() of ids %v and %v gives ids %v, want %v", a, b, got, want)
+				}
+				return ""
+			})
+		}
+	})
+}
